@@ -646,6 +646,15 @@ func (f *e1func) runInlined(st *fstate, c *ast.CallExpr, callee *FuncInfo) *inlR
 			}
 			ns = g.projectLocals(ns)
 			ns = f.eng.filterDelta(ns, e)
+			for _, m := range more {
+				if m.S == "eq" {
+					// what an interpreted helper returned stays known to the callers of its caller
+					if f.eng.valueEq == nil {
+						f.eng.valueEq = map[string]bool{}
+					}
+					f.eng.valueEq[m.Key()] = true
+				}
+			}
 			out := ns.with(more...)
 			if out == nil {
 				continue
@@ -871,6 +880,9 @@ func (e *e1) isRelevant(fc *Term) bool {
 		return true
 	}
 	k := fc.Key()
+	if fc.S == "eq" && e.valueEq[k] {
+		return true
+	}
 	if r, ok := e.relCache[k]; ok {
 		return r
 	}
